@@ -137,12 +137,15 @@ def check(ctx) -> None:
     tests = [n.id for n in cfg.nodes if n.kind == "test" and "maximum_search_time <= 0" in norm(n.stmt.test)]
     p = cfg.path([cfg.entry], tests, avoid_nodes=adj)
     ctx.check("C33.variant", rs, p is None and bool(tests), "the `<= 0` abort is tested before the budget was adjusted", what="abort tested on the adjusted budget", stmt="[order]")
-    el = [n for n in own_nodes(rs) if isinstance(n, ast.Assign) and norm(n.targets[0]) == "elapsed_time"]
     call = [c for c in own_nodes(rs) if isinstance(c, ast.Call) and norm(c.func) == "self._adjust_search_time_after_crash"]
-    ok = len(el) == 1 and norm(el[0].value) == "time.time() - self._start_time" and call and norm(call[0].args[0]) == "elapsed_time"
+    charged = call[0].args[0] if call and call[0].args else None
+    el = [n for n in own_nodes(rs) if isinstance(n, ast.Assign) and isinstance(charged, ast.Name) and norm(n.targets[0]) == charged.id]
+    if isinstance(charged, ast.Name) and len(el) == 1:
+        charged = el[0].value
+    ok = isinstance(charged, ast.BinOp) and isinstance(charged.op, ast.Sub) and norm(charged.right) == "self._start_time" and isinstance(charged.left, ast.Call) and norm(charged.left.func) in ("time.time", "time.monotonic", "time.perf_counter")
     ctx.check("C33.variant", el[0] if el else rs, bool(ok), "the time charged to the budget is not `time.time() - self._start_time` of the crashed worker", what="elapsed = now - start of the crashed worker", stmt="[elapsed]")
     st = [n for n in own_nodes(sw) if isinstance(n, ast.Assign) and norm(n.targets[0]) == "self._start_time"]
-    ctx.check("C33.variant", st[0] if st else sw, len(st) == 1 and norm(st[0].value) == "time.time()", "_start_worker no longer stamps the start time of each worker", what="start time stamped per worker", stmt="[stamp]")
+    ctx.check("C33.variant", st[0] if st else sw, len(st) == 1 and norm(st[0].value) in ("time.time()", "time.monotonic()", "time.perf_counter()") and (not ok or norm(st[0].value) == norm(charged.left)), "_start_worker no longer stamps the start time of each worker", what="start time stamped per worker", stmt="[stamp]")
 
     # ------------------------------------------------------------------ C33.decrease
     ad = repo.func(MA, "RunningTask._adjust_search_time_after_crash")
